@@ -27,6 +27,9 @@ def run(ctx):
         ok, cex = must_exit(fsm, st, {rxa: False}, targets={init})
         ctx.ob('C06.packet-end', 'USBDataPacketDeserializer.%s' % _role(ir, fsm, st), ok, fsm.state_loc[st],
                'state %s must return to %s on every path when rx_active is low; counterexample: %s' % (st, init, cex))
+    for e in fsm.in_edges(init):
+        ctx.ob('C06.idle-only-at-packet-end', 'USBDataPacketDeserializer.%s->init' % _role(ir, fsm, e.src), (rxa, False) in q.atoms(e), e.loc,
+               'returning to idle while the packet is still in progress lets its remaining bytes be parsed as a new packet: %s' % q.fmt(e))
     np = q.raises(ir, 'self.new_packet')
     ctx.need(len(np) >= 1, 'USBDataPacketDeserializer.new_packet driver')
     for a in np:
